@@ -15,9 +15,19 @@ impl<A> Addr<A> {
     #[verifier::external_body]
     pub fn do_send<M: Message>(&self, msg: M) { unimplemented!() }
     /// actix returns a `Request` future; awaiting it yields the handler's result or a mailbox error
+    /// (`reply_sane`: uninterpreted; the only thing it is ever assumed to say is A-INDEXSANE below)
     #[verifier::external_body]
-    pub async fn send<M: Message>(&self, msg: M) -> Result<M::Result, MailboxError> { unimplemented!() }
+    pub async fn send<M: Message>(&self, msg: M) -> (r: Result<M::Result, MailboxError>)
+        ensures r is Ok ==> reply_sane(r.unwrap())
+    { unimplemented!() }
 }
+
+pub uninterp spec fn reply_sane<R>(r: R) -> bool;
+/// A-INDEXSANE: the index manager never reports a snapshot that ends at the largest log index (`end_index + 1` is computed from it)
+pub broadcast axiom fn axiom_index_reply_sane(r: anyhow::Result<RaftIndexResponse>)
+    requires #[trigger] reply_sane(r)
+    ensures r matches Ok(RaftIndexResponse::RaftIndexInfo { raft_index, last_applied_log })
+        ==> last_applied_log < u64::MAX && forall|i: int| 0 <= i < raft_index.snapshots@.len() ==> (#[trigger] raft_index.snapshots@[i]).end_index < u64::MAX;
 
 // ---- T17: the ghost effect log
 /// the abstract value of a message (uninterpreted: two messages are the same only if they are equal as values)
@@ -72,9 +82,6 @@ pub struct McpManagerRaftResult { pub vx_opaque: u8 }
 pub struct NamingRaftResult { pub vx_opaque: u8 }
 pub struct CacheManagerRaftResult { pub vx_opaque: u8 }
 pub struct ConfigRaftResult { pub vx_opaque: u8 }
-pub struct RaftIndexResponse { pub vx_opaque: u8 }
-pub struct LogRange { pub vx_opaque: u8 }
-pub struct SnapshotRange { pub vx_opaque: u8 }
 pub struct ConfigKey { pub vx_opaque: u8 }
 pub struct ConfigValue { pub vx_opaque: u8 }
 pub struct ConfigValueDO { pub vx_opaque: u8 }
